@@ -39,3 +39,11 @@ Theorem ascii_numeric_is_word : forallb (fun c => implb (is_num (ascii_cls c)) (
 Proof. vm_compute. reflexivity. Qed.
 Theorem ascii_space_not_word : forallb (fun c => negb (is_space (ascii_cls c) && is_word (ascii_cls c))) (map N.of_nat (seq 0 128)) = true.
 Proof. vm_compute. reflexivity. Qed.
+
+(* ---------- entry points: every call edge between the model-matrix entry points forwards the caller's drop_rows ---------- *)
+Require Import GenEntry.
+Theorem entry_points_forward_drop_rows :
+  forallb (fun e => match e with (_, _, _, fwd_drop, _) => fwd_drop end) entry_edges = true.
+Proof. vm_compute. reflexivity. Qed.
+Theorem entry_points_present : (6 <=? length entry_edges)%nat = true.
+Proof. vm_compute. reflexivity. Qed.
